@@ -1342,7 +1342,8 @@ class Engine:
         kc_ = self.registry.by_target.get(qual) if self.registry is not None and hasattr(self.registry, 'by_target') else None
         if kc_ is not None and kc_.loops and kc_ is not self.current and not getattr(node, '_pyvc_loops_tagged', False):
             from .loops import number_loops
-            number_loops(node)
+            from .contract import recorded_loop_sigs
+            number_loops(node, recorded_loop_sigs().get(qual))
             for n_ in ast.walk(node):
                 k_ = getattr(n_, '_pyvc_loop', None)
                 if k_ is not None and k_ in kc_.loops:
